@@ -1,3 +1,117 @@
-From Coq Require Import ZArith List.
-From V Require Import C17.Spec.
-Example C17_placeholder : True. Proof. exact I. Qed.
+(* C17 — connection descriptions round-trip and never crash the parser.
+   Property theorems only.  The model (C17/Model.v) mirrors dsn/parse.go, dsn/format.go, dsn/util.go and is compared
+   with the Go code on every run; the tag tables (Gen/GenC17.v) are re-tabulated from dsn.TagToField on every run.
+   Struct kinds k: 0 dsn.Info, 1 tds.Info, 2 a test struct with an embedded and a named struct member, 3 KeyInfo. *)
+From Coq Require Import ZArith List Bool.
+From Coq Require String.
+Import String.StringSyntax.
+Import ListNotations.
+Local Open Scope string_scope.
+From V Require Import Base.Tree Gen.GenC17 C17.Model C17.Spec C17.Proofs C17.ProofsTok C17.ProofsFmt C17.ProofsURI.
+Open Scope Z_scope.
+
+(* (a) Simple form round trip, for ALL member values: strings over the documented alphabet (printable, no quotation
+   mark, no backslash; spaces anywhere - leading, trailing, runs -, '=' signs allowed), all booleans, all int64.
+   [init] is whatever the target struct held before. *)
+Theorem C17_simple_roundtrip : forall k v init, (k < nkinds)%nat ->
+  shape v = kinds k -> shape init = kinds k -> plain_vals v -> ints_ok v ->
+  exists text, format_simple k v = Some text /\ parse_simple k text init = Ok v.
+Proof. exact simple_roundtrip_all. Qed.
+
+(* (b) A space-joined list of key=value / key="value" / key='value' tokens (values with any text but quotation marks)
+   means: assign in order ... *)
+Theorem C17_sequential : forall k toks init, toks <> [] -> Forall tok_wf toks ->
+  parse_simple k (join32 (map tok_str toks)) init = run_toks (mtab k) toks init.
+Proof. intros k toks init. apply sequential. Qed.
+
+(* ... hence a later occurrence of a key or of any alias of the same member overrides every earlier one. *)
+Theorem C17_later_wins : forall k pre t post init r i,
+  Forall tok_wf (pre ++ t :: post) ->
+  parse_simple k (join32 (map tok_str (pre ++ t :: post))) init = Ok r ->
+  lookup (tok_key t) (mtab k) = Some i ->
+  (forall t', In t' post -> lookup (tok_key t') (mtab k) <> Some i) ->
+  exists kd x, nth_error (shape init) i = Some kd /\ typed (zero_of kd) (tok_payload t) = Some x /\ nth_error r i = Some x.
+Proof. exact later_wins_text. Qed.
+
+(* (c) A key that matches no member is an error, whatever follows the '=' and whatever precedes the token. *)
+Theorem C17_unknown_key : forall k toks key s init, Forall tok_wf toks -> key_ok key -> lookup key (mtab k) = None ->
+  parse_simple k (join32 (map tok_str toks ++ [key ++ 61 :: s])) init = Err.
+Proof. intros k toks key s init. apply unknown_key. Qed.
+
+(* the table of dsn.TagToField is the declared one; in particular the empty key matches no member (fix a412744) *)
+Theorem C17_tables_agree : forall k, (k < nkinds)%nat -> tables_agree k = true /\ lookup [] (mtab k) = None.
+Proof. intros k H. split; [apply tables_agree_all; exact H|apply empty_key_unknown; exact H]. Qed.
+
+(* (d) No string whatsoever makes ParseSimple panic (and the model's loop fuel always suffices). *)
+Theorem C17_no_panic : forall k s init, parse_simple k s init <> Panic /\ parse_simple k s init <> Fuel.
+Proof. intros k s init. apply parse_simple_safe. Qed.
+
+(* (e) URI form, the library's own logic (which member goes to userinfo / host / port / query, empty members are not
+   written, the query is read back key by key); net/url is represented by esc/unesc with the single assumption
+   unesc (esc s) = s.  Proved for dsn.Info and ALL five texts - including empty user name with non-empty password,
+   empty members, texts made of URI metacharacters.  In reality host and port must be acceptable to net/url as they
+   are (FormatURI writes them unescaped into Host): the harness uses host names of letters, digits, '.', '-' and
+   numeric ports.  The same statement for tds.Info and the embedding test struct (full statement below) is NOT
+   proved (2^9 * 2^3 emptiness/boolean cases by evaluation, or a generic proof over the tables); it is checked by
+   the harness only (fn 4: model = implementation and members read back = members written). *)
+Definition C17_uri_statement (k : nat) : Prop :=
+  forall (esc unesc : str -> str), (forall s, unesc (esc s) = s) ->
+  forall v, shape v = kinds k -> ints_ok v ->
+  exists w, format_uri esc k v = Some w /\ parse_uri unesc k w (zero_struct k) = Ok v.
+Theorem C17_uri_roundtrip_partial : forall (esc unesc : str -> str), (forall s, unesc (esc s) = s) ->
+  forall h p u pw db,
+  exists w, format_uri esc 0 [VS h; VS p; VS u; VS pw; VS db] = Some w /\
+            parse_uri unesc 0 w (zero_struct 0) = Ok [VS h; VS p; VS u; VS pw; VS db].
+Proof. exact uri_roundtrip_info. Qed.
+
+(* URI form: the last value of a repeated query key wins, an unknown query key is an error (on the record net/url
+   produces; keys and values already unescaped) *)
+Example C17_uri_last_value_wins :
+  parse_uri ident 0 {| w_scheme := []; w_user := None; w_host := [104]; w_port := [49]; w_path := [47];
+                       w_query := [(L "db", L "one"); (L "user", L "x"); (L "db", L "two")] |} (zero_struct 0)
+  = Ok [VS [104]; VS [49]; VS (L "x"); VS []; VS (L "two")] /\
+  parse_uri ident 0 {| w_scheme := []; w_user := None; w_host := [104]; w_port := [49]; w_path := [47];
+                       w_query := [(L "db", L "one"); (L "nokey", L "x")] |} (zero_struct 0) = Err.
+Proof. vm_compute. split; reflexivity. Qed.
+(* the model's URI round trip on tds.Info and the test struct, concrete members (esc = identity) *)
+Example C17_uri_examples :
+  (let v := [VS (L "h"); VS (L "1"); VS []; VS (L "p w"); VS (L "a/b?c"); VS (L "tcp"); VS []; VB true; VS []; VB false; VS (L "/x y"); VI (-5); VI 0; VB false] in
+   match format_uri ident 1 v with Some w => parse_uri ident 1 w (zero_struct 1) = Ok v | None => False end) /\
+  (let v := [VS (L "h"); VS []; VS (L "u"); VS []; VS (L "d"); VS (L "=&"); VB true; VI 7; VS []; VI (-1); VB false] in
+   match format_uri ident 2 v with Some w => parse_uri ident 2 w (zero_struct 2) = Ok v | None => False end).
+Proof. vm_compute. split; reflexivity. Qed.
+(* the userstore-key form drops host and credentials by design (documented in FormatURI) *)
+Example C17_uri_key_form :
+  format_uri ident 3 [VS (L "h"); VS (L "1"); VS (L "u"); VS (L "p"); VS (L "d"); VS (L "ase"); VS (L "k"); VS []]
+  = Some {| w_scheme := L "ase"; w_user := None; w_host := []; w_port := []; w_path := [];
+            w_query := [(L "KEY", L "k"); (L "database", L "d")] |}.
+Proof. vm_compute. reflexivity. Qed.
+
+(* non-vacuity *)
+Example C17_roundtrip_example :
+  let v := [VS [32; 97; 32; 32; 98; 32; 61; 32]; VS []; VS [117]; VS [61; 61]; VS [233; 8364]] in
+  shape v = kinds 0 /\ plain_vals v /\ ints_ok v /\
+  format_simple 0 v = Some (L "database=""" ++ [233; 8364] ++ L """ host="" a  b = "" password=""=="" port="""" username=""u""") /\
+  parse_simple 0 (L "database=""" ++ [233; 8364] ++ L """ host="" a  b = "" password=""=="" port="""" username=""u""") (zero_struct 0) = Ok v.
+Proof.
+  cbv zeta. split; [reflexivity|]. split; [|split; [|split; vm_compute; reflexivity]].
+  - intros s H. repeat (destruct H as [H|H]; [inversion H; vm_compute; reflexivity|]). destruct H.
+  - intros z H. repeat (destruct H as [H|H]; [discriminate H|]). destruct H.
+Qed.
+Example C17_later_wins_example :
+  parse_simple 0 (L "host=a hostname='b  c' pass=x passwd=""y z"" password=w") (zero_struct 0)
+  = Ok [VS (L "b  c"); VS []; VS []; VS (L "w"); VS []].
+Proof. vm_compute. reflexivity. Qed.
+Example C17_fixed_inputs :
+  parse_simple 0 (L "host=""a") (zero_struct 0) = Err /\ parse_simple 0 (L "host=""") (zero_struct 0) = Err /\
+  parse_simple 0 (L "host="" x""") (zero_struct 0) = Ok [VS (L " x"); VS []; VS []; VS []; VS []] /\
+  parse_simple 0 (L "=x") (zero_struct 0) = Err.
+Proof. vm_compute. repeat split. Qed.
+
+Print Assumptions C17_simple_roundtrip.
+Print Assumptions C17_sequential.
+Print Assumptions C17_later_wins.
+Print Assumptions C17_unknown_key.
+Print Assumptions C17_tables_agree.
+Print Assumptions C17_no_panic.
+Print Assumptions C17_uri_roundtrip_partial.
